@@ -48,6 +48,7 @@ func init() {
 func runC01(w *World, r *Report, tier string) {
 	kindRuleTexts(r)
 	unresolvedSeeds(w, r)
+	ruleSignedField(w, r)
 	entries := entryFuncs(w, r, "shape.GetExtendedSpatialIdsOnPoints", "shape.GetSpatialIdsOnPoints")
 	ruleChunks(w, r, closureOf(w, entries))
 	cl := closureOf(w, entries)
@@ -75,6 +76,7 @@ func runC03(w *World, r *Report, tier string) {
 		"integrate.HorizontalZoom", "integrate.HorizontalZoomMinMax", "integrate.VerticalZoom")
 	ruleChunks(w, r, closureOf(w, entries))
 	cl := closureOf(w, entries)
+	ruleIndexIntervalOpt(w, r, cl, true)
 	r.Analysed["closure_functions"] = len(cl)
 	kr := kindRulesFor(w)
 	kr.emit(w, r, []string{"ROUND", "KIND-CALL", "KIND-LAYOUT", "KIND-STORE"}, cl)
@@ -131,6 +133,7 @@ func runC09(w *World, r *Report, tier string) {
 		"integrate.MergeExtendedSpatialIds", "detector.CheckExtendedSpatialIdsOverlap", "detector.CheckSpatialIdsArrayOverlap",
 		"integrate.VerticalZoom", "common/object.(ExtendedSpatialID).Higher", "transform.ConvertZToMinMaxAltitudekey", "transform.ConvertAltitudekeyToMinMaxZ")
 	cl := closureOf(w, entries)
+	ruleIndexIntervalOpt(w, r, cl, true)
 	r.Analysed["closure_functions"] = len(cl)
 	kr := kindRulesFor(w)
 	n := kr.emit(w, r, []string{"ROUND", "FLOOR-NOBIAS"}, cl)
